@@ -40,6 +40,18 @@ theorem InTree.mono {P : Prog} {roots : List (List Op)} (x : List (List Op)) {π
   | init m k j op d p q h1 h2 h3 h4 => exact InTree.init m k j op d p q h1 h2 h3 h4
   | child π m p k j op d p' q _ h2 h3 ih => exact InTree.child π m p k j op d p' q ih h2 h3
 
+theorem Due.mono {P : Prog} {roots : List (List Op)} (x : List (List Op)) {π : List Nat} {d : Dst} {p : Nat}
+    (h : Due P roots π d p) : Due P (roots ++ x) π d p :=
+  match h with
+  | .spawn i k j ops op _ _ q h1 h2 h3 =>
+    have hi : i < roots.length := by
+      rcases Nat.lt_or_ge i roots.length with h | h
+      · exact h
+      · rw [List.getElem?_eq_none h] at h1; simp at h1
+    Due.spawn i k j ops op _ _ q (by rw [List.getElem?_append_left hi]; exact h1) h2 h3
+  | .init m k j op _ _ q h1 h2 h3 h4 => Due.init m k j op _ _ q h1 h2 h3 h4
+  | .child π0 m p0 k j op _ _ q h1 h2 h3 => Due.child π0 m p0 k j op _ _ q (h1.mono x) h2 h3
+
 theorem append_two_inj {a b : List Nat} {k j k' j' : Nat} (h : a ++ [k, j] = b ++ [k', j']) : a = b ∧ k = k' ∧ j = j' := by
   have hl : a.length = b.length := by
     have := congrArg List.length h
@@ -59,11 +71,20 @@ structure UInv (P : Prog) (s : St) (g : G) : Prop where
   started : ∀ e π k j, e < s.nextEid → g.path e = π ++ [k, j] → Started s g π
   distinct : ∀ t t', (s.task t).phase = .busy → (s.task t').phase = .busy → g.hpath t = g.hpath t' → t = t'
   len : ∀ e, e < s.nextEid → 4 ≤ (g.path e).length
-  sound : ∀ e d, e < s.nextEid → g.dst e = .box d → InTree P g.roots (g.path e) d (g.pl e)
+  sound : ∀ e, e < s.nextEid → Due P g.roots (g.path e) (g.dst e) (g.pl e)
   rootsLen : g.roots.length = g.spawns
 
 theorem uinv_init (P : Prog) : UInv P St.init {} := by
   constructor <;> simp [St.init]
+
+theorem ctx_sunk {P : Prog} {s : St} {g : G} {t : Nat} (x : List Nat) (h : Ctx P s g t) : Ctx P s { g with sunk := x } t := by
+  cases h with
+  | init a b c d e => exact Ctx.init a b c d e
+  | spawn i a b c => exact Ctx.spawn i a b c
+  | handling e0 a b c d e => exact Ctx.handling e0 a b c d e
+
+theorem uinv_sunk {P : Prog} {s : St} {g : G} (x : List Nat) (h : UInv P s g) : UInv P s { g with sunk := x } :=
+  ⟨fun t ht => ctx_sunk x (h.ctx t ht), h.inj, h.below, h.started, h.distinct, h.len, h.sound, h.rootsLen⟩
 
 /-- a queued message has not been handled by anybody -/
 theorem queued_not_handled {s : St} (hI : Inv s) (hF : FInv s) {m : Nat} {pk : Packet} (hp : pk ∈ s.mbox m) (m' : Nat) :
@@ -117,12 +138,14 @@ theorem uinv_step (P : Prog) (l : Label) (s s' : St) (g : G) (hI : Inv s) (hF : 
     (hB : BInv s g) (h : UInv P s g) (hs : step P l s = some s') : UInv P s' (gstep P l s g) := by
   obtain ⟨u1, u2, u3, u4, u5, u6, u7, u8⟩ := h
   -- steps that change neither the ghost state nor phases / handled / inits / nextEid (except that a task may leave `busy`)
-  have quiet : ∀ (hg : gstep P l s g = g) (hn : s'.nextEid = s.nextEid) (hh : s'.handled = s.handled)
+  have quiet : ∀ (hg : ∃ x, gstep P l s g = { g with sunk := x }) (hn : s'.nextEid = s.nextEid) (hh : s'.handled = s.handled)
       (hi : s'.inits = s.inits)
       (hb : ∀ t, (s'.task t).phase = .busy → (s.task t).phase = .busy ∧ (s'.task t).handling = (s.task t).handling),
       UInv P s' (gstep P l s g) := by
     intro hg hn hh hi hb
-    rw [hg]
+    obtain ⟨xs, hxs⟩ := hg
+    rw [hxs]
+    apply uinv_sunk
     refine ⟨?_, ?_, ?_, ?_, ?_, ?_, ?_, u8⟩
     · intro t ht
       obtain ⟨hb1, hb2⟩ := hb t ht
@@ -133,33 +156,33 @@ theorem uinv_step (P : Prog) (l : Label) (s s' : St) (g : G) (hI : Inv s) (hF : 
       exact started_mono (u4 e π k j he hp) (fun m hm => hi ▸ hm) (Nat.le_refl _) (fun m e0 h0 => ⟨hh ▸ h0, rfl⟩)
     · intro t t' ht ht'; exact u5 t t' (hb t ht).1 (hb t' ht').1
     · intro e he; rw [hn] at he; exact u6 e he
-    · intro e d he; rw [hn] at he; exact u7 e d he
+    · intro e he; rw [hn] at he; exact u7 e he
   cases l with
   | push t0 i =>
     obtain ⟨sub, hsub, hst, hcase⟩ := step_push_eq hs
     rcases hcase with ⟨k, hk, htask, sl, _⟩ | ⟨k, hk, htask, sl, _⟩ | ⟨d, hd, hcap, htask, hmb, ha, hh, hhp, hn, hin, _⟩
-    · apply quiet rfl sl.nextEid sl.handled sl.inits
+    · apply quiet (gstep_push_eq P s g t0 i) sl.nextEid sl.handled sl.inits
       intro t ht; rw [htask] at ht ⊢
       by_cases htt : t = t0
       · subst htt; simp at ht ⊢; exact ht
       · simp only [upd_other _ _ htt] at ht ⊢; exact ⟨ht, trivial⟩
-    · apply quiet rfl sl.nextEid sl.handled sl.inits
+    · apply quiet (gstep_push_eq P s g t0 i) sl.nextEid sl.handled sl.inits
       intro t ht; rw [htask] at ht ⊢; exact ⟨ht, rfl⟩
-    · apply quiet rfl hn hh hin
+    · apply quiet (gstep_push_eq P s g t0 i) hn hh hin
       intro t ht; rw [htask] at ht ⊢
       by_cases htt : t = t0
       · subst htt; simp at ht ⊢; exact ht
       · simp only [upd_other _ _ htt] at ht ⊢; exact ⟨ht, trivial⟩
   | opDone t0 =>
     obtain ⟨hph, _, _, htask, sl, _⟩ := step_opDone_eq hs
-    apply quiet rfl sl.nextEid sl.handled sl.inits
+    apply quiet ⟨g.sunk, rfl⟩ sl.nextEid sl.handled sl.inits
     intro t ht; rw [htask] at ht ⊢
     by_cases htt : t = t0
     · subst htt; simp at ht ⊢; exact ht
     · simp only [upd_other _ _ htt] at ht ⊢; exact ⟨ht, trivial⟩
   | finish t0 =>
     obtain ⟨hph, hcur, hrest, hnb, hcur', hoth, sl, _⟩ := step_finish_eq hs
-    apply quiet rfl sl.nextEid sl.handled sl.inits
+    apply quiet ⟨g.sunk, rfl⟩ sl.nextEid sl.handled sl.inits
     intro t ht
     by_cases htt : t = t0
     · subst htt; exact absurd ht hnb
@@ -216,7 +239,7 @@ theorem uinv_step (P : Prog) (l : Label) (s s' : St) (g : G) (hI : Inv s) (hF : 
       · simp only [gstep, upd_other _ _ htm, upd_other _ _ htm'] at hp
         exact u5 t t' (hbusy t ht htm).1 (hbusy t' ht' htm').1 hp
     · intro e he; rw [sln] at he; exact u6 e he
-    · intro e d he; rw [sln] at he; exact u7 e d he
+    · intro e he; rw [sln] at he; exact u7 e he
   | spawn t0 ops =>
     obtain ⟨hnm, hnb, hcur, htask, sl, _⟩ := step_spawn_eq hs
     have hbusy : ∀ t, (s'.task t).phase = .busy → t ≠ t0 → (s.task t).phase = .busy ∧ (s'.task t).handling = (s.task t).handling := by
@@ -264,8 +287,8 @@ theorem uinv_step (P : Prog) (l : Label) (s s' : St) (g : G) (hI : Inv s) (hF : 
       · simp only [gstep, upd_other _ _ htm, upd_other _ _ htm'] at hp
         exact u5 t t' (hbusy t ht htm).1 (hbusy t' ht' htm').1 hp
     · intro e he; rw [sl.nextEid] at he; exact u6 e he
-    · intro e d he hd; rw [sl.nextEid] at he
-      have := u7 e d he hd
+    · intro e he; rw [sl.nextEid] at he
+      have := u7 e he
       simp only [gstep]; exact this.mono [ops]
   | start t0 =>
     obtain ⟨op, ops, hph, hcur, hrest, htask, hn, ha, hh, hhp, hmb, hin, _⟩ := step_start_eq hs
@@ -338,17 +361,16 @@ theorem uinv_step (P : Prog) (l : Label) (s s' : St) (g : G) (hI : Inv s) (hF : 
       by_cases o1 : e < s.nextEid
       · rw [gpath_old e o1]; exact u6 e o1
       · rw [gpath_new e (by omega) he]; have := hctx0.len; simp; omega
-    · intro e d he hd
+    · intro e he
       rw [hn] at he
       rw [groots]
       by_cases o1 : e < s.nextEid
-      · have hd' : g.dst e = .box d := by simpa only [gstep, hrest, hold e o1, Bool.false_eq_true, if_false] using hd
+      · have hd' : (gstep P (.start t0) s g).dst e = g.dst e := by simp only [gstep, hrest, hold e o1, Bool.false_eq_true, if_false]
         have hpl : (gstep P (.start t0) s g).pl e = g.pl e := by simp only [gstep, hrest, hold e o1, Bool.false_eq_true, if_false]
-        rw [gpath_old e o1, hpl]; exact u7 e d o1 hd'
+        rw [gpath_old e o1, hpl, hd']; exact u7 e o1
       · have hge : s.nextEid ≤ e := by omega
         rw [gpath_new e hge he]
         have hj : e - s.nextEid < op.length := by omega
-        -- destination and payload of the new event are those of the j-th entry of the operation
         obtain ⟨⟨dd, pp, qq⟩, hget⟩ : ∃ x, op[e - s.nextEid]? = some x := ⟨_, List.getElem?_eq_getElem hj⟩
         have hdst : (gstep P (.start t0) s g).dst e = dd := by
           simp only [gstep, hrest, hnew e hge he, if_true]
@@ -356,8 +378,7 @@ theorem uinv_step (P : Prog) (l : Label) (s s' : St) (g : G) (hI : Inv s) (hF : 
         have hpl : (gstep P (.start t0) s g).pl e = pp := by
           simp only [gstep, hrest, hnew e hge he, if_true]
           rw [List.getD_eq_getElem?_getD, hget]; rfl
-        rw [hdst] at hd; subst hd
-        rw [hpl]
+        rw [hdst, hpl]
         have hopk : (g.ops t0)[g.opIdx t0]? = some op := by
           have := hB.rest t0 hph
           rw [hrest] at this
@@ -365,13 +386,13 @@ theorem uinv_step (P : Prog) (l : Label) (s s' : St) (g : G) (hI : Inv s) (hF : 
         cases hctx0 with
         | init a b c d' e' =>
           rw [d']; rw [e'] at hopk
-          exact InTree.init t0 _ _ op d pp qq a b hopk hget
+          exact Due.init t0 _ _ op dd pp qq a b hopk hget
         | spawn i a b c =>
           rw [b]
-          exact InTree.spawn i _ _ (g.ops t0) op d pp qq c hopk hget
+          exact Due.spawn i _ _ (g.ops t0) op dd pp qq c hopk hget
         | handling e0 a b c d' e' =>
           rw [e'] at hopk
-          exact InTree.child _ t0 _ _ _ op d pp qq d' hopk hget
+          exact Due.child _ t0 _ _ _ op dd pp qq d' hopk hget
   | deliver m =>
     obtain ⟨p, ps, hph, hmb, htask, hmb', ha, hh, hhp, hn, hin⟩ := step_deliver_eq hs
     have hp : p ∈ s.mbox m := by rw [hmb]; simp
@@ -405,8 +426,8 @@ theorem uinv_step (P : Prog) (l : Label) (s s' : St) (g : G) (hI : Inv s) (hF : 
       · subst htm
         refine Ctx.handling p.eid (by rw [hh]; simp) (by rw [gpath, ghp]; simp) (by rw [ghp]; simp; exact u6 p.eid hpe) ?_ ?_
         · rw [ghp, groots, htask]; simp
-          have := u7 p.eid t hpe hpd
-          rw [hpp] at this; exact this
+          have := u7 p.eid hpe
+          rw [hpd, hpp] at this; exact this.box
         · rw [gops, htask]; simp
       · obtain ⟨hb1, hb2⟩ := hbusy t ht htm
         exact ctx_mono (u1 t hb1) (fun x hx => by rw [hin]; exact hx) (by rw [gsp]; exact Nat.le_refl _)
@@ -433,6 +454,6 @@ theorem uinv_step (P : Prog) (l : Label) (s s' : St) (g : G) (hI : Inv s) (hF : 
       · simp only [upd_other _ _ htm, upd_other _ _ htm'] at hpq
         exact u5 t t' (hbusy t ht htm).1 (hbusy t' ht' htm').1 hpq
     · intro e he; rw [hn] at he; rw [gpath]; exact u6 e he
-    · intro e d he hd; rw [hn] at he; rw [gdst] at hd; rw [gpath, gpl, groots]; exact u7 e d he hd
+    · intro e he; rw [hn] at he; rw [gpath, gpl, gdst, groots]; exact u7 e he
 
 end NexoVerif.Net
